@@ -52,12 +52,12 @@ impl Msg {
     fn sexp(&self) -> String { format!("(msg {} {} {})", hex(&self.name), self.mt, self.seq) }
 }
 
-fn api_of(s: &str) -> Option<StrApi> { Some(match s { "b" => StrApi::Bytes, "v" => StrApi::Vec, "f" => StrApi::FastStr, _ => return None }) }
+fn api_of(s: &str) -> Option<StrApi> { StrApi::of(s) }
 
 /// payload bytes that take the zero-copy branch of the unchecked LinkedBytes writer
 fn zc_len(v: &Val, zc: bool, api: StrApi) -> usize {
     match v {
-        Val::Bin(b) => if zc && api != StrApi::Vec && b.len() >= ZC_THRESHOLD { b.len() } else { 0 },
+        Val::Bin(b) => if zc && api != StrApi::Vec && api != StrApi::Str && b.len() >= ZC_THRESHOLD { b.len() } else { 0 },
         Val::Struct(fs) => fs.iter().map(|(_, x)| zc_len(x, zc, api)).sum(),
         Val::List(_, xs) | Val::Set(_, xs) => xs.iter().map(|x| zc_len(x, zc, api)).sum(),
         Val::Map(_, _, kvs) => kvs.iter().map(|(k, x)| zc_len(k, zc, api) + zc_len(x, zc, api)).sum(),
@@ -837,6 +837,8 @@ fn gen_c03(r: &mut Rng, thorough: bool, out: &mut dyn Write) {
                 let b = ref_encode(p, v, &mut pol);
                 if seen.contains(&b) { continue; }
                 let _ = writeln!(out, "sr {} {} {}", p.name(), v.sexp(), hex(&b));
+                // a reader that knows all fields but one: reference bytes, field k skipped, the others read (thrift2's `skfx`)
+                if let Val::Struct(fs) = v { if fs.len() <= 12 { for k in 0..fs.len() { let _ = writeln!(out, "skfx {} {} {} {}", p.name(), v.sexp(), k, hex(&b)); } } }
                 seen.push(b);
             }
         }
@@ -847,6 +849,8 @@ fn gen_c03(r: &mut Rng, thorough: bool, out: &mut dyn Write) {
                          (-5, Val::Bin(b"hi".to_vec())), (20000, Val::I64(-9_000_000_000)), (20015, Val::Uuid([0xAB; 16]))]),
         Val::Struct(vec![(15, Val::I8(1)), (30, Val::I8(2)), (31, Val::Bool(false)), (16, Val::I8(4)), (32767, Val::Bool(true)), (-32768, Val::I16(-1))]),
         Val::Struct(vec![(1, Val::Struct(vec![(5, Val::I32(1))])), (2, Val::Struct(vec![(1, Val::Bool(false))])), (3, Val::Dbl(0x400921fb54442d18))]),
+        Val::Struct(vec![(1, Val::Bool(true)), (2, Val::List(TT::Bool, vec![Val::Bool(true), Val::Bool(false), Val::Bool(true)])), (3, Val::I32(5)), (4, Val::Struct(vec![(1, Val::Bool(false))])),
+                         (5, Val::Set(TT::Bool, vec![Val::Bool(false)])), (6, Val::Map(TT::Bool, TT::Bool, vec![(Val::Bool(false), Val::Bool(true))])), (7, Val::Bool(false)), (8, Val::List(TT::Struct, vec![Val::Struct(vec![(2, Val::Bool(true))])]))]),
         Val::Map(TT::Bool, TT::Bool, vec![(Val::Bool(true), Val::Bool(false)), (Val::Bool(false), Val::Bool(true))]),
         Val::Map(TT::Bool, TT::Bool, vec![]), Val::Map(TT::Binary, TT::Struct, vec![(Val::Bin(vec![1]), Val::Struct(vec![]))]),
         Val::Set(TT::Bool, vec![Val::Bool(true)]), Val::List(TT::Uuid, vec![Val::Uuid([7; 16])]),
@@ -932,7 +936,7 @@ pub fn gen(stream: &str, tier: &str, seed: u64, out: &mut dyn Write) -> bool {
     let thorough = tier == "thorough";
     let n = |q: usize, t: usize| if thorough { t } else { q };
     let bufs = [BufK::Bm, BufK::Lb0, BufK::Lb1];
-    let apis = ["b", "v", "f"];
+    let apis = ["b", "v", "f", "r", "s"];
     match stream {
         "C11" => {
             // ---- fixed: payloads on both sides of the zero-copy threshold, in every position
